@@ -17,7 +17,7 @@ fn cstatus(s: ChronyClockStatus) -> i64 {
 
 fn trk_of(f: &[i64]) -> (Trk, i64) {
     // leap ref_ns now_ns offW dispW delayW intervalW
-    (Trk { leap: f[0] as u16, ref_ns: f[1], off: f[3] as u32, disp: f[4] as u32, delay: f[5] as u32, interval: f[6] as u32, refid: 0, ip4: None }, f[2])
+    (Trk { leap: f[0] as u16, ref_ns: f[1], off: f[3] as u32, disp: f[4] as u32, delay: f[5] as u32, interval: f[6] as u32, refid: 0, ip4: None, stratum: None }, f[2])
 }
 
 /// extract <leap> <ref_ns> <now_ns> <offW> <dispW> <delayW> <intervalW>  ->  <bound> <status>
@@ -138,7 +138,7 @@ pub fn gen_trk(rng: &mut Rng) -> (Trk, i64) {
         _ => rng.range(0, 20_000_000_000),
     };
     let ref_ns = (now - age_ns).max(0);
-    (Trk { leap, ref_ns, off, disp, delay, interval, refid: 0, ip4: None }, now)
+    (Trk { leap, ref_ns, off, disp, delay, interval, refid: 0, ip4: None, stratum: None }, now)
 }
 
 pub fn gen_extract(rng: &mut Rng) -> String {
